@@ -121,7 +121,9 @@ def run(ctx):
         # every URL the parser ACCEPTS must render to a string it accepts again - bracketed and bracket-odd authorities included
         from ..gen import BRACKET_ODD_HOSTS
 
-        for odd in BRACKET_ODD_HOSTS + ["[::1]", "[v1.x]", "[fe80::1%eth0]", "u:p@[::1]:81", "[::1]@h", "u[v1.x]:p@h:1"]:
+        for odd in BRACKET_ODD_HOSTS + ["[::1]", "[v1.x]", "[fe80::1%eth0]", "u:p@[::1]:81", "[::1]@h", "u[v1.x]:p@h:1",
+                                        # a bracket pair in the userinfo AND an odd one in the host part
+                                        "[a:b]@[[::1]", "[a:b]@[v1.x[y]", "[a:b]@[::1]]", "[a:b]@x[::1]", "[a:b]@[::1]", "[a:b]:[c:d]@[::2]:1", "[::1]@[::2]@[[::3]"]:
             for sch in ("http:", "foo:", ""):
                 for tail in ("/", "/p?q#f", ":8042/p", ""):
                     op = {"op": "ctor", "s": f"{sch}//{odd}{tail}"}
